@@ -8,8 +8,8 @@ Variable zero : A.
 Variable ext : ident -> ident -> val A -> list (val A) -> option (val A).
 Notation call_at F := (i_call (interp_at A zero ext prog F)).
 
-Definition mk_it (l : list A) (k : nat) : iter A := {| it_vals := l; it_slot := k |}.
-Definition it_rep (cls : val A) (i : iter A) : val A := it_val cls (it_vals i) (Z.of_nat (it_slot i)).
+Notation mk_it := (mk_it A).
+Notation it_rep := (it_rep A).
 
 Lemma gen_HasNext cls i F : 6 <= F ->
   call_at F (it_rep cls i) id_HasNext [] = ROk (VBool (has_next i), it_rep cls i).
